@@ -207,7 +207,36 @@ impl Phase for Random {
     fn len(&self) -> u64 {
         self.n
     }
-    fn run(&mut self, _idx: u64, r: &mut Rng, out: &mut Out) {
+    fn run(&mut self, idx: u64, r: &mut Rng, out: &mut Out) {
+        if idx % 40 == 7 {
+            // deep trees (130-600 levels) and sequences of exact sizes 2..=70
+            use crate::refmodel::parse::Ast;
+            let c = |k: i64| Ast::Call("t".into(), Box::new(Ast::Const(RV::Int(k))));
+            let a = if r.chance(1, 2) {
+                let depth = r.range(130, 330);
+                let mut a = c(0);
+                let kind = r.below(3);
+                for k in 1..=depth as i64 {
+                    a = match kind {
+                        0 => Ast::Bin("+", Box::new(c(k)), Box::new(a)),
+                        1 => Ast::Call("id".into(), Box::new(a)),
+                        _ => Ast::Un("neg", Box::new(a)),
+                    };
+                }
+                a
+            } else {
+                let n = r.range(2, 70);
+                let elems: Vec<Ast> = (1..=n as i64).map(c).collect();
+                match r.below(3) {
+                    0 => Ast::Tuple(elems),
+                    1 => Ast::Chain(elems),
+                    _ => Ast::Call("id".into(), Box::new(Ast::Tuple(elems))),
+                }
+            };
+            out.count("deep / sized programs");
+            check_program(out, &a, &base_model(), r);
+            return;
+        }
         if r.chance(1, 2) {
             let ast = typed_program(r, 8);
             check_program(out, &ast, &typed_model(), r);
@@ -340,7 +369,7 @@ impl Phase for TypedViews {
                 format!("{}{}{}{}", r.pick(&["", " ", "\n"]), r.pick(&["", "-", "+", "- ", "!"]), body, r.pick(&["", " ", ";"]))
             },
             1 => r
-                .pick(&["bitnot(1.5)", "shl(xf, 2)", "x / 0", "xs + 1", "len(x)", "x", "xf", "xb", "xs", "(x, xf)", "()", "x = 1 / 0", "y += nosuch", "-xs", "math::sqrt(xb)"])
+                .pick(&["\u{feff}x + 1", "\u{feff}1", "\u{feff}", "\u{200b}x", "bitnot(1.5)", "shl(xf, 2)", "x / 0", "xs + 1", "len(x)", "x", "xf", "xb", "xs", "(x, xf)", "()", "x = 1 / 0", "y += nosuch", "-xs", "math::sqrt(xb)"])
                 .to_string(),
             _ => render_spaced(&render_ast(&typed_program(r, 5), Parens::Minimal, Some(r), true)),
         };
